@@ -154,10 +154,13 @@ def report(run, exe, d, fmt, dump_seed, ops, line, i, err, shrink=True):
         return rc != 0 or first_diff(cand, l) is not None
     small = ops
     if shrink:
+        t0 = core.time.time()
         if not differs(ops):
             run.count("hist-unreproducible")
             return
-        small = core.shrink_list(ops, differs, max_tests=250)
+        # a hanging library makes every test cost the timeout: shrink less then
+        slow = core.time.time() - t0 > 5
+        small = core.shrink_list(ops, differs, max_tests=12 if slow else 250)
     rc, sl, serr = run_hist_one(exe, run, d, small)
     si = first_diff(small, sl) if rc == 0 else -1
     if si is None:
@@ -185,7 +188,8 @@ def report(run, exe, d, fmt, dump_seed, ops, line, i, err, shrink=True):
 # answer is judged by the extracted spec.
 # ----------------------------------------------------------------------------
 
-def check_whitebox(run, engine, genmod, exe, ncases, what):
+def check_whitebox(run, engine, genmod, exe, ncases, what, label=None):
+    label = label or engine
     cases = []
     corpus = os.path.join(core.VERIF, "corpus", engine + ".txt")
     if os.path.exists(corpus):
@@ -198,7 +202,7 @@ def check_whitebox(run, engine, genmod, exe, ncases, what):
         cases = [rp["case"]]
     else:
         cases += [genmod.gen_case(run.rng) for _ in range(ncases)]
-    run.cov["engines"][engine] = {"corpus_cases": ncorpus, "generated": ncases}
+    run.cov["engines"][label] = {"corpus_cases": ncorpus, "generated": ncases}
     cmp3 = getattr(genmod, "compare", None)          # compare(case, model, impl) -> None | reason
 
     def same(c, m, i):
@@ -217,8 +221,8 @@ def check_whitebox(run, engine, genmod, exe, ncases, what):
         run.note_case(engine + " " + c, getattr(genmod, "nontrivial", lambda c, o: True)(c, impl[i]))
         if i < 2:
             run.sample({"engine": engine, "case": c[:200], "impl": impl[i][:200]})
-    run.count(engine + "-cases", len(cases))
-    run.count(engine + "-spec-ok", sum(1 for v in verd if v == "ok"))
+    run.count(label + "-cases", len(cases))
+    run.count(label + "-spec-ok", sum(1 for v in verd if v == "ok"))
     for i in bad[:3]:
         def one(case):
             m = core.run_model(engine, run.casefile(engine + "-one.txt", [case]))
@@ -245,13 +249,13 @@ def check_whitebox(run, engine, genmod, exe, ncases, what):
                   "how": "bin/check C04 --replay <this file>"}
         if cr:
             run.violation("impl", "%s aborts (sanitizer/crash) on case: %s" % (what, case[:300]), replay,
-                          found_input=True, signature=engine + " crash " + list(cr.values())[0][1][-200:])
+                          found_input=True, signature=label + " crash " + list(cr.values())[0][1][-200:])
         elif v != "ok":
             run.violation("spec", "%s contradicts the spec: %s; case: %s" % (what, v, case[:300]), replay,
-                          found_input=True, signature=engine + " spec " + v)
+                          found_input=True, signature=label + " spec " + v)
         else:
             run.violation("tie", "correspondence %s (extracted model vs %s) broken on case: %s"
-                          % (engine, what, case[:300]), replay, found_input=False, signature=engine + " tie")
+                          % (engine, what, case[:300]), replay, found_input=False, signature=label + " tie")
 
 
 def check(run):
@@ -284,7 +288,15 @@ def check(run):
             continue
         exe = run.need_cc(engine + "_drv", drv, sources=srcs(), sanitize=True)
         if exe is not None:
-            check_whitebox(run, engine, genmod, exe, n if quick else 40 * n, what)
+            check_whitebox(run, engine, genmod, exe, n if quick else 20 * n, what)
+            if engine == "rcache" and not quick and not run.replay_path:
+                # callbacks that re-enter get_cache_buf (thorough tier): the model follows the code
+                # (model == implementation), the cache-less spec does not hold: finding
+                # C04-readcache-reentrant (theorem C04_readcache_reentrant_refuted)
+                class Re:
+                    spec_line = staticmethod(genmod.spec_line)
+                    gen_case = staticmethod(lambda rng: genmod.gen_case(rng, reentrant=True))
+                check_whitebox(run, engine, Re, exe, 2000, what, label="rcache-reentrant")
     run.cov["rule"] = ("hist: one case = one dump + one history, every observing call compared with a fresh context; "
                        "non-trivial = the history changes a configuration attribute and contains a successful read. "
                        "fcache/rcache: one case = one op history on the white-box driver; non-trivial as defined by "
